@@ -23,7 +23,7 @@ def plan(tier, seed):
 
 def thresholds(tier):
   t = {"designs": 150, "ordered_pairs_checked": 3000, "discriminating_stale_read_comparisons": 1000, "passes_checked": 5000,
-       "designs_with_pairs": 100, "rejections_checked": 16, "greenlet_orderings_checked": 2000, "greenlet_designs": 60}
+       "designs_with_pairs": 100, "rejections_checked": 16, "greenlet_orderings_checked": 2000, "greenlet_designs": 60, "explicit_constraints_checked": 2000}
   if tier == "thorough":
     t = {k: v * 15 for k, v in t.items()}
   return t
@@ -32,7 +32,7 @@ def thresholds(tier):
 def knobs_for(rng):
   return {"depth": rng.choice([0, 1, 1, 2]), "max_children": rng.choice([1, 2, 3]), "p_ff": rng.choice([0.1, 0.3]),
           "p_split": rng.choice([0.4, 0.7]), "p_struct": 0.35, "max_sigs": rng.choice([3, 5]), "expr_depth": 2,
-          "p_connect": rng.choice([0.2, 0.45]), "p_nested_field": rng.choice([0, 0.3]), "p_list_field": rng.choice([0, 0.3])}
+          "p_connect": rng.choice([0.2, 0.45]), "p_nested_field": rng.choice([0, 0.3]), "p_list_field": rng.choice([0, 0.3]), "p_constraints": 0.6}
 
 
 CYCLE_SRC = '''
@@ -163,7 +163,7 @@ def run_shard(sh):
                                reps={"simple": 2, "unroll": 2})
     if st is None: continue
     sh.count("designs"); sh.count("evaluations")
-    for k in ("ordered_pairs_checked", "discriminating_stale_read_comparisons", "stale_read_comparisons", "passes_checked", "mode_runs"):
+    for k in ("explicit_constraints_checked", "ordered_pairs_checked", "discriminating_stale_read_comparisons", "stale_read_comparisons", "passes_checked", "mode_runs"):
       sh.count(k, st[k])
     sh.count("observed_schedules_total", st["distinct_schedules"])
     if st["pairs"]:
